@@ -22,9 +22,11 @@
     list_rt, list_cap, list_refuse value trees of strings / numbers / lists; the depth cap 1000 counts
                                    non-empty lists only
     legacy_number64_counterexample, legacy_flag_counterexample  the two repaired defects
-  Validated by the oracle only (not theorems): the model's output is accepted by the strict RFC 9051
-  string reader of Spec/Wire.lean and obeys RFC 7888's literal rules (`framingAllowed`); flags with
-  bytes ≥ 0x80 (Unicode `strings.ToLower` in Go) are outside the model.
+    string_wellformed              what String writes is accepted by the strict RFC 9051 string reader of
+                                   Spec/Wire.lean, denotes the string, and obeys RFC 7888's literal rules
+  Validated by the oracle only (not theorems): the same well-formedness for mailbox names (astring whose
+  content is canonical modified UTF-7) and sequence-set texts; flags with bytes ≥ 0x80 (Unicode
+  `strings.ToLower` in Go) are outside the model.
   Side conditions on `rest` are the grammar's separators: a number is followed by a non-digit, an
   atom-like token (flag, INBOX, sequence set) by a byte that cannot continue it.
 -/
@@ -36,6 +38,7 @@ import GoImap.Lemmas.WireFlag
 import GoImap.Lemmas.WireNumSet
 import GoImap.Lemmas.WireMailbox
 import GoImap.Lemmas.WireList
+import GoImap.Lemmas.WireWellFormed
 import GoImap.Props.C15
 namespace GoImap.C01
 open GoImap.Wire GoImap.WireSpec
@@ -87,6 +90,50 @@ theorem string_sync (cfg : Cfg) (s : Wire.Bytes) :
   constructor
   · rintro ⟨h1, h2, h3⟩; exact ⟨h1, h3, h2⟩
   · rintro ⟨h1, h2, h3⟩; exact ⟨h1, h3, h2⟩
+
+/-- what `Encoder.String` writes is well-formed RFC 9051 `string` syntax (strict reader of
+    Spec/Wire.lean: no NUL/CR/LF and — unless UTF-8 quoting was negotiated — no 8-bit byte inside
+    quotes, only quoted-specials escaped, a literal header followed by exactly that many bytes)
+    denoting `s`, and it is framed as RFC 7888 allows under the negotiated mode: a non-synchronising
+    literal only from a client with LITERAL+ or (LITERAL- and at most 4096 bytes), and otherwise the
+    encoder waited right after the header -/
+theorem string_wellformed (cfg : Cfg) (s rest : Wire.Bytes) (hlen : s.length < lim63) :
+    ∃ fr, rString cfg.quotedUTF8 ((encString cfg s {}).out ++ rest) = some (s, rest, fr) ∧
+      framingAllowed cfg 0 fr (encString cfg s {}).waits = true := by
+  obtain ⟨_, h2, h3⟩ := encString_ok cfg s {} rfl
+  have hout : (encString cfg s {}).out = Wire.strBytes cfg s := by simpa using h2
+  rw [hout, h3]
+  unfold Wire.strBytes
+  by_cases hv : validQuoted cfg s = true
+  · refine ⟨.quoted, ?_, by simp [hv, framingAllowed]⟩
+    have hall := hv
+    unfold validQuoted at hall
+    simp only [Bool.and_eq_true] at hall
+    simp only [hv, if_true]
+    exact rString_quoted cfg.quotedUTF8 s rest hall.2
+  · have hv' : validQuoted cfg s = false := by simpa using hv
+    simp only [hv', Bool.false_eq_true, if_false, Bool.not_false, Bool.true_and]
+    refine ⟨_, rString_literal cfg cfg.quotedUTF8 (needSync cfg s.length) s rest hlen, ?_⟩
+    cases hside : cfg.side with
+    | server =>
+      have hs : needSync cfg s.length = false := needSync_server cfg _ hside
+      simp [framingAllowed, hside, hs]
+    | client =>
+      cases hs : needSync cfg s.length with
+      | true =>
+        have := litHeader_length cfg s.length true
+        simp [framingAllowed, hside, this]
+      | false =>
+        have hmode : (cfg.literalPlus || (cfg.literalMinus && decide (s.length ≤ 4096))) = true := by
+          simp only [needSync, hside, decide_true, Bool.true_and, Bool.and_eq_false_iff,
+            Bool.or_eq_false_iff, decide_eq_false_iff_not, Nat.not_lt,
+            Bool.not_eq_eq_eq_not] at hs
+          simp only [Bool.or_eq_true, Bool.and_eq_true, decide_eq_true_eq]
+          rcases hs with ⟨h1, h2⟩ | h
+          · right
+            exact ⟨by simpa using h1, by omega⟩
+          · left; simpa using h
+        simp [framingAllowed, hside, hmode]
 
 -- a 3-byte string with a NUL: literal; client without LITERAL±: synchronising, wait after "{3}\r\n"
 example : (encString ⟨.client, false, false, false⟩ [97, 0, 98] {}).waits = [5] ∧
